@@ -64,23 +64,31 @@ def obs_any(env, x):
     return o
 
 
-def mk_sel(axis, retain, keykind, tier='quick'):
+def mk_sel(axis, retain, keykind, tier='quick', finding=False):
+    # finding=True: the region of known findings F21 (empty slice) / F22 (descending list), isolated from the main condition
     def body(env, a, b, o):
+        from vf import rt
+        # keys are split by value up front (slice ends in -5..5 or None), then everything runs concretely
+        a = None if a is None else concretize(a, -5, 5)
+        b = None if b is None else concretize(b, -5, 5)
+        o = concretize(o, 0, 2)
+        return rt.untraced(lambda: run(env, a, b, o))
+
+    def run(env, a, b, o):
         sf = env.sf
         from vf import rt
-        q, rows, index, columns = rt.concrete(('C19', env.model, axis, retain), lambda: mk_quilt(env, axis, retain))
+        # a Quilt fills internal caches on first use: build a fresh one on every path
+        q, rows, index, columns = mk_quilt(env, axis, retain)
         if keykind == 'int':
             qk = a
         elif keykind == 'slice':
             qk = slice(a, b)
         else:
-            qk = [concretize(a, 0, 3), concretize(b, 0, 3)]
-        ok = None if o == 2 else concretize(o, 0, 1)     # opposite-axis key: position 0, 1 or everything
+            qk = [a, b]
+        ok = None if o == 2 else o     # opposite-axis key: position 0, 1 or everything
         rk, ck = (qk, ok) if axis == 0 else (ok, qk)
         try:
             exp = ref_frame_select(rows, index, columns, rk, ck)
-            if exp[0] == 'S' and isinstance(exp[3], list) and False:
-                pass
         except IndexError:
             exp = ['raises', 'IndexError']
         try:
@@ -93,24 +101,26 @@ def mk_sel(axis, retain, keykind, tier='quick'):
             got = obs_any(env, r)
         except IndexError:
             got = ['raises', 'IndexError']
-        if isinstance(exp, list) and exp[0] in ('F', 'S') and (len(exp[1]) == 0 or (exp[0] == 'F' and len(exp[2]) == 0)):
-            return ['outside: empty selection'], ['outside: empty selection']
         return got, exp
     params = [('a', 'oint' if keykind == 'slice' else 'int'), ('b', 'oint' if keykind == 'slice' else 'int'), ('o', 'int')]
-    ranges = {'o': (0, 2)}
+    ranges = {'o': (0, 2), 'a': (-5, 5), 'b': (-5, 5)}
     pre = []
     if keykind == 'list':
-        ranges.update({'a': (0, 3), 'b': (0, 3)}); pre.append('a != b')
+        ranges.update({'a': (0, 3), 'b': (0, 3)}); pre.append('a > b' if finding else 'a < b')
+    if keykind == 'slice':
+        pre.append('not _rt.slice_nonempty(a, b, None, 4)' if finding else '_rt.slice_nonempty(a, b, None, 4)')
     if keykind == 'int':
         ranges['b'] = (0, 0)
-    return Cond(f'quilt_axis{axis}_{"retain" if retain else "plain"}_{keykind}', params, body, ranges=ranges, pre=pre,
+    return Cond(f'quilt_axis{axis}_{"retain" if retain else "plain"}_{keykind}' + ('_finding' if finding else ''), params, body, ranges=ranges, pre=pre,
             functions=['Quilt._extract', 'AxisMap.from_bus' if False else 'Quilt._update_axis_labels'],
-            bounds=f'Quilt over 2 frames of 2x2 along axis {axis}, retain_labels={retain}; quilt-axis key kind {keykind} with symbolic contents (int / slice ends UNBOUNDED), opposite-axis key symbolic (0, 1 or all)',
+            bounds=f'Quilt over 2 frames of 2x2 along axis {axis}, retain_labels={retain}; quilt-axis key kind {keykind} with symbolic contents (int / slice ends in -5..5 or None; list entries 0..3), opposite-axis key symbolic (0, 1 or all); split by value, then concrete',
             route='Quilt.iloc[...] == the same selection on the concatenation of the member frames', tier=tier, timeout=300)
 
 
 for _axis, _ret, _kind in ((0, True, 'int'), (0, False, 'slice'), (0, True, 'slice'), (0, False, 'list'), (1, True, 'slice'), (1, False, 'int'), (1, True, 'list')):
     _add(mk_sel(_axis, _ret, _kind))
+_add(mk_sel(0, False, 'slice', finding=True))
+_add(mk_sel(1, True, 'list', finding=True))
 for _axis in (0, 1):
     for _ret in (True, False):
         for _kind in ('int', 'slice', 'list'):
@@ -126,8 +136,10 @@ def body_quilt_shape(env, axis_flag, retain):
     idx = [list(t) for t in q.index] if q.index.depth > 1 else q.index.values.tolist()
     cols = [list(t) for t in q.columns] if q.columns.depth > 1 else q.columns.values.tolist()
     got = [list(q.shape), env.obs(idx), env.obs(cols), env.obs(q.to_frame().values.tolist()),
-           [env.obs(a.tolist()) for a in q.iter_array(axis=1)]]
-    exp = [[len(rows), len(rows[0])], index, columns, rows, rows]
+           # iteration is offered along the Quilt axis only (the other raises NotImplementedAxis: documented limitation)
+           [env.obs(a.tolist()) for a in q.iter_array(axis=1 - axis)]]
+    lines = rows if axis == 0 else [[rows[r][c] for r in range(len(rows))] for c in range(len(rows[0]))]
+    exp = [[len(rows), len(rows[0])], index, columns, rows, lines]
     return got, exp
 
 
